@@ -43,6 +43,7 @@ type c04Scenario struct {
 }
 
 func runC04(c *Ctx) {
+	runC04Reversion(c)
 	n := c.N(400, 10000)
 	for i := 0; i < n; i++ {
 		if !c.Mine(i) {
@@ -528,4 +529,134 @@ func c04E2E(c *Ctx, idx int, seed int64, sp *e2eSpec, dir string) {
 	if pairs > 0 {
 		res.NonTrivial(fmt.Sprintf("e2e/%d/%s/%v/%v/%v", len(sp.Files), ord, sp.Faults, sp.SenderCrashAt, sp.RecvCrashAt))
 	}
+}
+
+// ---- a waiting file is replaced by a newer version that announces ANOTHER predecessor
+//
+// c (version 1) is validated and held for a; c changes at the source and version 2
+// arrives announcing b (not delivered yet); then a and b arrive in either order.
+// Version 2 must wait for b, whatever happens to the turn version 1 had.
+
+type c04RevScenario struct {
+	Order    []string `json:"arrival_order"`
+	Restart  bool     `json:"receiver_restart_before_predecessors"`
+	V2Parts  int      `json:"v2_parts"`
+	SameSize bool     `json:"same_size"`
+}
+
+func runC04Reversion(c *Ctx) {
+	n := c.N(60, 1500)
+	for i := 0; i < n; i++ {
+		idx := 2_000_000 + i
+		if !c.Mine(idx) {
+			continue
+		}
+		rng := c.Rng(idx)
+		sc := &c04RevScenario{}
+		dir := filepath.Join(c.Work, fmt.Sprintf("c04r-%d", idx))
+		c.Guard(idx, sc, func() {
+			bubble(c.T, func() { c04RevRun(c, idx, rng, sc, dir) })
+		})
+		os.RemoveAll(dir)
+	}
+}
+
+func c04RevRun(c *Ctx, idx int, rng *rand.Rand, sc *c04RevScenario, dir string) {
+	res := c.Res
+	res.Eval()
+	viol := func(clause, fp, detail string) {
+		res.Violate(Violation{Clause: clause, Fingerprint: "C04/" + fp, Detail: detail, Scenario: sc, Index: idx})
+	}
+	time.Sleep(time.Duration(rng.Intn(86400)) * time.Second)
+	rs := newRecvSide(dir, false)
+	defer rs.close()
+	ftime := time.Now().Add(-time.Duration(1+rng.Intn(50)) * time.Minute)
+	mk := func(n int) []byte { return randBytes(rng, int64(n)) }
+	size1 := 20 + rng.Intn(500)
+	size2 := size1
+	sc.SameSize = rng.Intn(2) == 0
+	if !sc.SameSize {
+		size2 = 20 + rng.Intn(500)
+	}
+	a, b, c1, c2 := mk(30+rng.Intn(200)), mk(30+rng.Intn(200)), mk(size1), mk(size2)
+	sc.V2Parts = 1 + rng.Intn(2)
+	send := func(name, prev string, data []byte, parts int) {
+		size := int64(len(data))
+		step := size / int64(parts)
+		for k := 0; k < parts; k++ {
+			beg, end := int64(k)*step, int64(k+1)*step
+			if k == parts-1 {
+				end = size
+			}
+			d := &desc{Name: name, Prev: prev, Hash: md5hex(data), Size: size, Time: ftime, Beg: beg, End: end, Send: size}
+			rs.Stage.Prepare([]sts.Binned{d})
+			_ = rs.Stage.Receive(d.partial("src"), &chunkyReader{data: data[beg:end], rng: rng, stop: -1})
+		}
+		rs.restamp()
+		synctest.Wait()
+		time.Sleep(time.Duration(1+rng.Intn(25)) * time.Second) // across the 10 s retry timer or not
+		synctest.Wait()
+	}
+	send("g/c", "g/a", c1, 1+rng.Intn(2))
+	send("g/c", "g/b", c2, sc.V2Parts)
+	var before []delivered
+	var beforeLog []loggedRec
+	sc.Restart = rng.Intn(4) == 0
+	if sc.Restart {
+		before = append(before, rs.Disp.Events()...)
+		beforeLog = append(beforeLog, rs.Log.Recs()...)
+		rs.reboot(false)
+		rs.Stage.Recover()
+		synctest.Wait()
+	}
+	order := []string{"g/a", "g/b"}
+	if rng.Intn(2) == 0 {
+		order = []string{"g/b", "g/a"}
+	}
+	sc.Order = order
+	for k, nm := range order {
+		data := a
+		if nm == "g/b" {
+			data = b
+		}
+		send(nm, "", data, 1)
+		// after the first of the two: c may be out only if it was b that arrived (and then it must be version 2)
+		if k == 0 && nm == "g/a" {
+			for _, d := range append(before, rs.Disp.Events()...) {
+				if d.Rel == "g/c" {
+					viol("held-until-predecessor", "newer-version-released-in-older-versions-turn", fmt.Sprintf("g/c (md5 %s) was delivered when g/a arrived, although its current version announces g/b, which has not been delivered", d.MD5))
+					return
+				}
+			}
+		}
+	}
+	time.Sleep(40 * time.Second)
+	synctest.Wait()
+	// ---- order of the log and of the deliveries, content of c
+	seq := map[string]int{}
+	for i, d := range append(before, rs.Disp.Events()...) {
+		if _, ok := seq[d.Rel]; !ok {
+			seq[d.Rel] = i + 1
+		}
+	}
+	if seq["g/c"] == 0 {
+		viol("released-after-predecessor", "reversion-never-released", "g/c was not delivered within 40 virtual s after both announced predecessors had been delivered")
+	} else if seq["g/b"] == 0 || seq["g/b"] > seq["g/c"] {
+		viol("held-until-predecessor", "newer-version-released-in-older-versions-turn", fmt.Sprintf("g/c was delivered (event %d) before g/b (event %d), the predecessor its current version announces", seq["g/c"], seq["g/b"]))
+	}
+	if bts, err := os.ReadFile(filepath.Join(rs.FinalDir, "g/c")); err == nil && md5hex(bts) != md5hex(c2) && !sc.Restart {
+		viol("released-after-predecessor", "reversion-older-version-delivered", "the final directory holds version 1 of g/c although version 2 was received and validated")
+	}
+	lseq := map[string]int{}
+	for i, l := range append(beforeLog, rs.Log.Recs()...) {
+		if _, ok := lseq[l.Name]; !ok {
+			lseq[l.Name] = i + 1
+		}
+	}
+	if lseq["g/c"] > 0 && (lseq["g/b"] == 0 || lseq["g/b"] > lseq["g/c"]) {
+		viol("held-until-predecessor", "newer-version-logged-in-older-versions-turn", "g/c was logged as received before g/b")
+	}
+	res.Count("reversion_histories", 1)
+	res.NonTrivial(fmt.Sprintf("rev/%v/%v/%d/%v/%d/%d", sc.Order, sc.Restart, sc.V2Parts, sc.SameSize, size1, size2))
+	res.Sample(sc)
 }
